@@ -102,6 +102,13 @@ def case_strategy():
                 c["tree"][f"{tag}_inc/t.h"] = {"items": [["define", f"T_{tag.upper()}", "1"], ["code", 1]], "style": [0]}
             c["tree"]["off.c"] = {"items": [["include", "angle", "t.h"]] + [["chain", [["ifdef", f"T_{t}", [["code", 1]]]], [["code", 1]]] for t in ("AMD", "NV", "X")], "style": [0]}
             c["platforms"][draw(st.sampled_from(plist))].append({"file": "off.c", "defines": [], "dirs": [], "forced": [], "compiler": "offcc", "extra_flags": ["-foffload-targets=" + ",".join(draw(st.permutations(["amd", "nv", "x"]))[: draw(st.integers(2, 3))])]})
+        # a CUDA kernel compiled by several platforms for different architectures (the option that
+        # replaces the default architecture is parsed once per command)
+        if draw(st.booleans()):
+            c["tree"]["cuda/k.cu"] = {"items": [["chain", [["if", ["and", ["defined", "__CUDA_ARCH__", True], ["cmp", "__CUDA_ARCH__", "==", 700]], [["code", 2]]], ["elif", ["defined", "__CUDA_ARCH__", True], [["code", 1]]]], [["code", 1]]], ["code", 1]], "style": [0]}
+            archs = draw(st.permutations([["--gpu-code=sm_80"], ["--gpu-code=sm_90"], ["-gencode", "arch=compute_89,code=sm_89"], ["--gpu-architecture=compute_75", "--gpu-code=sm_75"]]))
+            for pn, arch in zip(draw(st.permutations(plist)), archs[: draw(st.integers(2, 3))]):
+                c["platforms"][pn].append({"file": "cuda/k.cu", "defines": [], "dirs": [], "forced": [], "extra_flags": arch})
         c["schedules"] = draw(st.lists(st.tuples(st.sampled_from([0, 1, 2, 3, "random"]), st.integers(0, 10**6), st.integers(0, 10**6)), min_size=3, max_size=3))
         return c
 
@@ -123,7 +130,7 @@ def observe_all(case, root, hashseed, shuffle, permseed, top, tag, full):
     c = permuted(case, permseed) if permseed is not None else case
     m = cbcase.materialise(c, root)
     out = {}
-    rc, so, se = run_sched(hashseed, shuffle, "dump", [m["analysis"]], root)
+    rc, so, se = run_sched(hashseed, shuffle, "dump", [m["analysis"], m["dbs"][sorted(case["platforms"])[0]]], root)
     if rc != 0:
         return {"error": f"dump rc={rc} {se[-400:]}"}
     out["dump"] = json.loads(so)
@@ -235,7 +242,7 @@ def _shard(seed, n, known, full):
 
 def run(ctx):
     n = core.NPROC
-    nfull, ndump = ctx.pick(8, 150), ctx.pick(40, 1500)
+    nfull, ndump = ctx.pick(8, 150), ctx.pick(96, 1500)
     jobs = [(ctx.shard_seed("full", i), max(1, nfull // 8), ctx.known_sigs, True) for i in range(8)]
     jobs += [(ctx.shard_seed("dump", i), max(1, ndump // 8), ctx.known_sigs, False) for i in range(8)]
     res = core.merge_results(core.pool_map(_shard, jobs))
